@@ -4,31 +4,38 @@
 (* machine: every property is an invariant over the history (documents      *)
 (* added) and the accumulated tree after each stage.                        *)
 (***************************************************************************)
-EXTENDS AyBuild, Props_C02, Props_C03
+EXTENDS AyBuild, Props_C02, Props_C03, Props_C04
 
 HistDocs  == [i \in 1..Len(hist) |-> hist[i].sd]
 HistSafes == [i \in 1..Len(hist) |-> hist[i].safe]
 
-Inv_C02          == C02_Holds(HistDocs, accs)
-Inv_C02_NoKeyLost == C02_NoKeyLost(HistDocs, accs)
-Inv_C02_Frame    == C02_Frame(HistDocs, accs)
+CompactOut(r) == IF IsErr(r) THEN [e |-> r.err] ELSE CompactN(r)
 
-Inv_C03 == C03_Holds(HistDocs, accs)
+\* an invariant that, when refuted, also prints the refuting history as JSON
+\* (documents + outcome after each stage) so that the harness can show it as YAML
+Check(name, ok) ==
+    ok \/ (PrintT(ToJson([cex |-> name, docs |-> HistDocs,
+                          x |-> [j \in 1..Len(accs) |-> CompactOut(accs[j])]])) /\ FALSE)
+
+Inv_C02          == Check("Inv_C02", C02_Holds(HistDocs, accs))
+Inv_C02_NoKeyLost == Check("Inv_C02_NoKeyLost", C02_NoKeyLost(HistDocs, accs))
+Inv_C02_Frame    == Check("Inv_C02_Frame", C02_Frame(HistDocs, accs))
+
+Inv_C03 == Check("Inv_C03", C03_Holds(HistDocs, accs))
 \* the antecedent is reachable: some 3-stage history inside the domain has
 \* writers of three different priorities at one path (checked as ~Witness)
 C03_Witness == /\ phase = "done" /\ Len(hist) >= 2 /\ C03_InDomain(HistDocs)
                /\ \E p \in C03_AllPaths(HistDocs, Len(hist)) :
                       Cardinality({C03_SPr(HistDocs[j], p, 0) : j \in C03_Writers(HistDocs, Len(hist), p)}) >= 2
 
-\* behaviours for replay: one JSON line per terminal state
-CompactOut(r) == IF IsErr(r) THEN [e |-> r.err] ELSE CompactN(r)
+Inv_C04 == Check("Inv_C04", C04_Holds(HistDocs, accs))
+C04_Witness == phase = "done" /\ C04_Judged(HistDocs, accs)
 
+\* behaviours for replay: one JSON line per terminal state
 Emit == Terminal => PrintT(ToJson([h |-> [i \in 1..Len(hist) |-> hist[i].i],
                                    s |-> HistSafes,
                                    x |-> [j \in 1..Len(accs) |-> CompactOut(accs[j])]]))
 
-\* the universe, printed once at start-up (documents are referred to by index)
-ASSUME PrintT(ToJson([universe |-> Docs]))
 
 \* universe sizes, printed once (ASSUME is evaluated at start-up)
 =============================================================================
